@@ -29,6 +29,11 @@ AFFails(ev) ==
            "call reported success but its output does not decode to the input")
   \cup Bad(ev.fault # 0 \/ ev.ok = 1 \/ ev.same # 0, "C18", "object unusable after a reported failure")
   \cup Bad(ev.fk > 0 \/ (ev.ok = 1 /\ ev.same # 0), "C18", "H:unfaulted reference run failed")
+  \* encoders: the destination has exactly the size the sizing function advertised for this input (C03)
+  \cup Bad(ev.adv < 0 \/ ev.fault # 0 \/ ev.written <= ev.adv, "C03",
+           "encoder wrote more than the advertised size when an allocation failed")
+  \cup Bad(ev.adv < 0 \/ ev.fault # 1 \/ ev.foff < ev.adv, "C03",
+           "encoder wrote beyond a destination of exactly the advertised size when an allocation failed")
 
 \* ---- bitmap steps
 Matches(ev, want) ==
